@@ -7,6 +7,8 @@ pub mod tygen;
 pub mod s_dtype;
 pub mod s_hier;
 pub mod s_rules;
+pub mod ir;
+pub mod s_dp;
 
 use common::*;
 use std::io::{BufRead, Write};
@@ -21,6 +23,8 @@ fn streams() -> Vec<(&'static str, GenFn, EvalFn)> {
         ("hier", s_hier::gen_hier, s_hier::eval_hier),
         ("scope", s_hier::gen_scope, s_hier::eval_scope),
         ("rules", s_rules::gen, s_rules::eval),
+        ("dpevent", s_dp::gen_event_case, s_dp::eval_event_case),
+        ("dpquery", s_dp::gen_query, s_dp::eval_query),
     ]
 }
 
